@@ -36,10 +36,11 @@ ASSUMPTIONS = [
 REQUIRED_CLAUSES = ["failure-reaches-race-control", "never-success", "no-results-stored", "no-summary-printed", "bounded-time", "baseline-succeeds"]
 KINDS = ["http-abort", "http-400-abort", "refused-continue", "params-raise", "partition-raise", "runner-keyerror", "runner-exception", "store-raises",
          "prepare-task-raises", "prepare-handler-raises", "worker-dies", "cancel", "timeout-abort", "http-status-abort", "rc-store-raises", "store-down"]
-REQUIRED_FEATURES = {"kind:" + k: 2 for k in KINDS}
-REQUIRED_FEATURES["driver-profiling-on"] = 5
-REQUIRED_FEATURES.update({"exc:params-raise:RuntimeError": 1, "exc:params-raise:NotImplementedError": 1, "exc:prepare-task-raises:two-arg": 1, "exc:prepare-handler-raises:two-arg": 1})
-REQUIRED_FEATURES["own-actor-system:hangs"] = 3
+_COMMON_FEATURES = {"driver-profiling-on": 5, "exc:params-raise:RuntimeError": 1, "exc:params-raise:NotImplementedError": 1, "exc:prepare-task-raises:two-arg": 1,
+                    "exc:prepare-handler-raises:two-arg": 1, "exc:prepare-handler-raises:system-exit": 1, "own-actor-system:hangs": 3}
+# the work list starts with ONE fault of every kind per base schedule (a kind that only one base schedule has - http-status-abort - is there once):
+# that head is what a heavily loaded machine still reaches within the quick budget
+REQUIRED_FEATURES = {"quick": dict({"kind:" + k: 1 for k in KINDS}, **_COMMON_FEATURES), "thorough": dict({"kind:" + k: 2 for k in KINDS}, **_COMMON_FEATURES)}
 BUDGET = {"quick": {"cases": 1500, "seconds": 34}, "thorough": {"cases": 40000, "seconds": 700}}
 EXHAUSTIVE_WHOLE = False
 
@@ -260,6 +261,8 @@ class Injector:
             def on_prepare_track(prep, track, data_root_dir):
                 if kind == "prepare-handler-raises":
                     me.fired_at = k.clock.now
+                    if f.get("exc") == "system-exit":
+                        raise SystemExit("verif: a track plugin gives up with sys.exit()")  # not an Exception: only a handler guard for BaseException reports it
                     raise (TwoArgError("on_prepare_track", "verif") if f.get("exc") == "two-arg" else RuntimeError("verif: on_prepare_track failed"))
                 PREPARE_TASK_FIRED.append(0)
                 return [(failing_task_two_arg if f.get("exc") == "two-arg" else failing_task, {})]
@@ -452,6 +455,8 @@ def points_for(case, base_tr, rng, exhaustive):
         faults.append({"kind": "rc-store-raises", "call": "bulk_add@TaskFinished", "nth": 2})
     faults.append({"kind": "prepare-task-raises"})
     faults.append({"kind": "prepare-handler-raises"})
+    if exhaustive or rng.random() < 0.3:
+        faults.append({"kind": "prepare-handler-raises", "exc": "system-exit"})
     if exhaustive or rng.random() < 0.5:
         # the same with an exception class whose instances do not survive the trip between two actor processes
         faults.append({"kind": "prepare-task-raises", "exc": "two-arg"})
